@@ -50,10 +50,31 @@ POOL: dict[str, tuple[str, tuple[Any, ...]]] = {
 }
 
 
-def domain(name: str) -> list[Any]:
+# the same numeric name with another range on another path (the sampler's own docstring example:
+# b = suggest_int("b", a, 3)): node["var"] picks the range
+VARIANTS: dict[str, list[tuple[Any, ...]]] = {
+    "n": [(0, 3, 1), (1, 3, 1), (2, 3, 1), (0, 2, 2), (3, 3, 1)],
+    "m": [(1, 7, 3), (4, 7, 3), (1, 4, 3)],
+    "x": [(0.0, 1.0, 0.5), (0.5, 1.0, 0.5), (0.0, 0.5, 0.5)],
+    "y": [(0.1, 0.7, 0.2), (0.3, 0.7, 0.2), (0.1, 0.5, 0.2)],
+}
+
+
+def pool(node: dict[str, Any]) -> tuple[str, tuple[Any, ...]]:
+    kind, a = POOL[node["p"]]
+    if node.get("var"):
+        a = VARIANTS[node["p"]][node["var"]]
+    return kind, a
+
+
+def domain(name: Any, var: int = 0) -> list[Any]:
     import optuna.distributions as D
 
+    if isinstance(name, dict):
+        name, var = name["p"], name.get("var", 0)
     kind, a = POOL[name]
+    if var:
+        a = VARIANTS[name][var]
     if kind == "cat":
         return list(a[0])
     if kind == "int":
@@ -72,8 +93,9 @@ def program(draw: Any, used: tuple[str, ...] = (), depth: int = 0, budget: list[
     avail = [n for n in sorted(POOL) if n not in used]
     if depth >= 4 or not avail or budget[0] <= 1 or (depth > 0 and draw(st.integers(0, 3)) == 0):
         return {"leaf": draw(st.sampled_from(["complete", "complete", "complete", "fail", "prune"])), "value": float(draw(st.integers(-5, 5)))}
-    name = draw(st.sampled_from(avail))
-    dom_n = {"c": 3, "b": 2, "n": 4, "m": 3, "one": 1, "x": 3, "y": 4, "z": 7, "u": 7, "k": 4, "s": 1}[name]
+    name = draw(st.sampled_from(avail + [n for n in avail if n in VARIANTS]))
+    var = draw(st.integers(0, len(VARIANTS[name]) - 1)) if name in VARIANTS and draw(st.booleans()) else 0
+    dom_n = len(domain(name, var))
     if dom_n > budget[0]:
         return {"leaf": "complete", "value": 0.0}
     budget[0] -= dom_n - 1
@@ -83,14 +105,14 @@ def program(draw: Any, used: tuple[str, ...] = (), depth: int = 0, budget: list[
         kids = [sub] * dom_n
     else:
         kids = [draw(program(used + (name,), depth + 1, budget)) for _ in range(dom_n)]
-    return {"p": name, "kids": kids}
+    return {"p": name, "var": var, "kids": kids}
 
 
 def leaves(node: dict[str, Any], path: tuple[tuple[str, Any], ...] = ()) -> list[tuple[tuple[tuple[str, Any], ...], str]]:
     if "leaf" in node:
         return [(path, node["leaf"])]
     out = []
-    for v, kid in zip(domain(node["p"]), node["kids"]):
+    for v, kid in zip(domain(node), node["kids"]):
         out += leaves(kid, path + ((node["p"], v),))
     return out
 
@@ -186,14 +208,14 @@ def run_brute(case: dict[str, Any], ctx: Ctx) -> None:
     def objective(trial: Any) -> float:
         node = prog
         while "leaf" not in node:
-            kind, a = POOL[node["p"]]
+            kind, a = pool(node)
             if kind == "cat":
                 v = trial.suggest_categorical(node["p"], list(a[0]))
             elif kind == "int":
                 v = trial.suggest_int(node["p"], a[0], a[1], step=a[2])
             else:
                 v = trial.suggest_float(node["p"], a[0], a[1], step=a[2])
-            dom = domain(node["p"])
+            dom = domain(node)
             idx = next((i for i, d in enumerate(dom) if _same(d, v)), None)
             if idx is None:
                 raise Violation("suggested-value-outside-domain", f"{node['p']}: {v!r} not in {dom}", case)
